@@ -173,7 +173,7 @@ func (c *connection) stop() {
 		// 只关闭stopChan 其他channel不关闭 (写协程和超时协程还可能往里面发送 关闭会导致send on closed channel)
 		// 写协程收到stopChan后 会给所有还在等待的主动下发请求回复失败
 		close(c.stopChan)
-		clear(c.handles)
+		// handles不在这里清空: 写协程可能还在查询handles (map并发读写) 连接对象释放后由GC回收
 	})
 }
 
